@@ -14,7 +14,8 @@ META = {
     "independence checked syntactically) and the same loop is executed symbolically with short reads; every document handler advertises a size that is "
     "either unknown or the number of bytes it writes; HEAD writes GET's header block and nothing else; the advertised MIME type/encoding is the "
     "documented function of the MIME tables' answer for the selector; the WAP conversion maps each LF-delimited line to exactly one escaped line "
-    "whose unescaping is the line without trailing blanks.",
+    "whose unescaping is the line without trailing blanks."
+    " A text or HTML file with an arbitrary byte before, inside or after its title goes through the real handler chain and every protocol with its bytes intact, and its directory still lists.",
     "trusted": "z3, cvc5, CrossHair; the AST->LIA loop translation (vk/smt.py); stubs for the file object, mimetypes.guess_type, time.",
     "explanation": "SMT inductive invariant + bounded symbolic execution.",
     "assumptions": [
